@@ -311,3 +311,33 @@ func short3(m map[int][]uint64, portions int) bool {
 	}
 	return false
 }
+
+// smallByName rebuilds one database of the small family from its name "S:<trace><x|y>...#<id set>" (ad-hoc runs).
+func smallByName(name string) *Database {
+	body, idx, ok := strings.Cut(strings.TrimPrefix(name, "S:"), "#")
+	if !ok || !strings.HasPrefix(name, "S:") || len(body)%2 != 0 {
+		return nil
+	}
+	var is int
+	fmt.Sscan(idx, &is)
+	sets := idSetsFor(2)
+	if is >= len(sets) {
+		return nil
+	}
+	var traces []Trace
+	for j := 0; j < len(body)/2; j++ {
+		t := int(body[2*j] - '1')
+		a := string(body[2*j+1])
+		for len(traces) <= t {
+			traces = append(traces, Trace{TID: sets[is][len(traces)]})
+		}
+		dur := int64(2_000_000_000)
+		if a == "x" && j%2 == 0 {
+			dur = 1_000_000_000
+		}
+		tr := &traces[t]
+		tr.Spans = append(tr.Spans, Span{SID: len(tr.Spans) + 1, TS: T0 + int64(j+1)*slotNS, Dur: dur, Name: "op1",
+			Attrs: map[string]string{"a": a, "b": fmt.Sprint(j + 1)}})
+	}
+	return newDatabase(name, traces)
+}
